@@ -215,7 +215,7 @@ pub fn hist_worker(prop: &str, thorough: bool, base: u64, idx: u64, stride: u64,
         let seed = run_seed_of(base, prop, i);
         let _ = std::fs::write(progress, format!("{seed} {i}"));
         let cfg = hist_cfg(prop, seed, thorough);
-        let faulty = !matches!(cfg.ghost, Ghost::Off);
+        let faulty = !matches!(cfg.ghost, Ghost::Off) || cfg.profile.io_fault_permille > 0;
         let r = run_history(&cfg);
         out.runs += 1;
         if faulty {
@@ -266,6 +266,20 @@ pub fn hist_worker(prop: &str, thorough: bool, base: u64, idx: u64, stride: u64,
             }));
         }
         i += stride;
+    }
+    let fsc = crate::simfs::take_counters();
+    for (k, v) in [
+        ("io-reads", fsc.reads),
+        ("io-reads-of-missing-files", fsc.reads_missing),
+        ("io-read-faults-fired", fsc.read_faults),
+        ("io-writes", fsc.writes),
+        ("io-write-faults-fired-nothing-written", fsc.write_faults_clean),
+        ("io-write-faults-fired-torn-file", fsc.write_faults_torn),
+        ("io-bytes-written", fsc.bytes_written),
+    ] {
+        if v > 0 {
+            *out.probes.entry(k.to_string()).or_default() += v;
+        }
     }
     out.wall_s = t0.elapsed().as_secs_f64();
     out
@@ -683,6 +697,9 @@ pub fn write_evidence(spec: &CheckSpec, base: u64, total: &WorkerOut, wall_s: f6
             "ghost_on_timed_acquisition": total.ghost_fired_timed,
             "ghost_on_try_acquisition": total.ghost_fired_try,
             "stalls": total.stalls,
+            "disk_read_errors": total.probes.get("io-read-faults-fired").copied().unwrap_or(0),
+            "disk_write_errors_nothing_written": total.probes.get("io-write-faults-fired-nothing-written").copied().unwrap_or(0),
+            "disk_write_errors_torn_file": total.probes.get("io-write-faults-fired-torn-file").copied().unwrap_or(0),
         },
         "probes": {
             "timed_waits_expired": total.timeouts,
@@ -704,7 +721,7 @@ pub fn write_evidence(spec: &CheckSpec, base: u64, total: &WorkerOut, wall_s: f6
             "clock": "simulated",
             "threads": "real OS threads, one runnable at a time (baton)",
             "HashSet<WeakArxmlFile>": "ordered stand-in (DetSet)",
-            "file system": "not exercised (buffers)",
+            "file system": "simulated disk behind the fs seam of load_file / write (whole-file reads and writes by path, injected read errors, failed and torn writes) for C10 C11 C12; not exercised by the other checks (buffers)",
         },
         "exhaustive": false,
     });
